@@ -202,6 +202,20 @@ func VerifC16() {
 		zz.Assert(vHeld(r, false, limDec) == 1, "C16/supersede/overwritten-snapshot-released")
 		zz.Assert(r.snapshotsByInstance["a"].NameInfo.FullName == vName("a", 3), "C16/supersede/newest-waits")
 		zz.Reach("C16/superseded")
+		if zz.Choice("newestVanishes", 2) == 1 {
+			// the newest blob is removed from the bucket while its snapshot still waits: an older one
+			// becomes the instance's newest again and replaces the waiting one, which must be released
+			_ = b.Delete(ctx, vName("a", 3))
+			_ = r.RunOnce(ctx, false)
+			older := r.lastSeenByInstance["a"]
+			zz.Assert(older.FullName != vName("a", 3), "C16/older-after-vanish/listing-follows-the-bucket")
+			lerr5 := da.LoadOnce(ctx, older)
+			zz.Assert(lerr5 == nil, "C16/older-after-vanish/delivered")
+			zz.Assert(vHeld(r, false, limDec) == 1, "C16/older-after-vanish/overwritten-snapshot-released")
+			zz.Assert(vHeld(r, true, limDl) == 0, "C16/older-after-vanish/download-token-released")
+			zz.Reach("C16/older-after-vanish")
+			return
+		}
 	}
 
 	// the merge loop takes what is waiting: every instance's snapshot is handed over once
